@@ -92,6 +92,28 @@ CHECKS = {
         "ZonedClock getters x zones x calendars and SystemClock behind a time_ns seam."
         " ZonedClock histories on one object (all <= 2-3 step movement sequences across real transitions), sequences started from a non-zero auto-advance, operations after a raising operation must still complete (lock-timeout guard), three-thread read|reset|read.", ref="4/C19"),
 }
+# round-4 additions, appended to the level texts
+R4 = {
+ "C01": " Every Era constant a calendar does not list must be refused on every era-taking route.",
+ "C03": " Aware datetimes with sub-second UTC offsets through Instant.from_aware_datetime against the exact integer.",
+ "C04": " Route histories (get_utc_offset as the first question to a period whose slot holds an aliased period), 60 user zones (1-6 transitions inside/across one cache period; stored periods + rule tails joined mid-season) against the rule evaluator, and in the thorough tier one cached zone object asked for all 114,116 periods of years 1-9999 ascending then descending.",
+ "C05": " The same 60 user zones, raw and cached, through the complete law set.",
+ "C07": " Template values in the BCE era of each two-era calendar; standard letters inside embedded patterns; a failing call interposed between formats.",
+ "C08": " Standard pattern letters inside embedded ld<>/lt<> patterns.",
+ "C10": " Cancelling huge components for every ordered pair of units (K = 2^31, 2^40, 2^64 days' worth) and year+month periods on every month end of a leap year and its successor, all calendars, all routes.",
+ "C11": " ZonedDateTime(local, zone, offset) for locals inside and around every gap/overlap x 5 offsets.",
+ "C12": " Numeric type of the argument (int vs integral float) on every float-taking factory with a representation oracle: equal values keep the same numeric types on their stored attributes.",
+ "C13": " Round 4: int-form enum arguments as the first creation of Hebrew/Islamic calendars with a behaviour probe, histories of read-only questions to a TzdbDateTimeZoneSource (depth 2-3, 28 questions), ABA-ordered pairs with three preemptions on small functions, objects warmed to capacity boundaries (2^k-2..2^k, 600 patterns) before the race, two independent codec writers at once.",
+ "C15": " Sub-second UTC offsets on every from-aware route; histories of 2-3 arguments that are ==/hash-equal as stdlib values but not the same conversion.",
+ "C16": " Weekday arguments as enum member, int(member) and IntEnum-arithmetic int on every weekday-taking route; rule factories with int first day of week.",
+ "C17": " Sequences with a failing call interposed (format/parse that raises after writing) between two formats on one thread.",
+ "C19": " Reset targets on local day boundaries of each zone; SystemClock read by two threads with equal OS readings after a different earlier reading.",
+ "C20": " Value-level faults of zone fields with the framing fixed up (transition instants replaced by the start/end-of-time markers, equal/earlier instants, tail flag toggled, counts +-1) and non-minimal varint re-encodings.",
+}
+ENVP = (" Thorough tier: the complete quick exploration is additionally repeated in child interpreters under python -O (assertions stripped), under an ambient decimal context "
+        "(prec=6, ROUND_UP) and under another PYTHONHASHSEED, against the same oracle (environment passes; VERIF_ENV_PASSES=1 runs them in the quick tier too).")
+for _k, _c in CHECKS.items():
+    _c["text"] = _c["text"] + R4.get(_k, "") + ENVP
 READY = set("C01 C02 C03 C04 C05 C06 C07 C08 C09 C10 C11 C12 C13 C14 C15 C16 C17 C18 C19 C20".split())
 NOT_YET = "check not built yet in this session (planned, see DESIGN.md section 4)"
 def main():
